@@ -987,6 +987,11 @@ func (p *parser) scanGroupOpen() (*RegexNode, error) {
 		return newRegexNodeMN(NtCapture, p.options, p.consumeAutocap(), -1), nil
 	}
 
+	// "ignore the next paren" refers to this parenthesis whatever it opens (the
+	// condition of (?(...)...) may itself be a (?=...) group); the pre-scan
+	// clears the flag for every kind of group as well.
+	p.ignoreNextParen = false
+
 	p.moveRight(1)
 
 	for p.charsRight() > 0 {
